@@ -58,6 +58,8 @@ pub struct Mux {
     pub name: &'static str,
     pub faults: bool,
     pub max_chunks: u64,
+    /// the bearer is a kernel Unix socketpair (the `Bearer::Unix` arms run) instead of the simulated pipe
+    pub kernel: bool,
 }
 
 async fn endpoint_task(sh: Sh, mut ch: AgentChannel, ep: Endpoint, eidx: usize) -> Result<(), Violation> {
@@ -123,7 +125,7 @@ impl Scenario for Mux {
         let mut listen: [Vec<u16>; 2] = [vec![], vec![]];
         let mut agent = 0;
         let mut tries = 0;
-        let budget0 = *cx.ch.pick("bytes.budget", &[2_000usize, 20_000, 200_000, 1_200_000]);
+        let budget0 = if self.kernel { *cx.ch.pick("bytes.budget", &[2_000usize, 20_000, 200_000, 600_000]) } else { *cx.ch.pick("bytes.budget", &[2_000usize, 20_000, 200_000, 1_200_000]) };
         let mut budget = budget0;
         while agent < n_agents && tries < 64 {
             tries += 1;
@@ -179,15 +181,40 @@ impl Scenario for Mux {
         } else {
             PipeCfg::default()
         };
+        // kernel socket buffers: the minimum the kernel grants (a request of 1 byte is rounded up to
+        // about 4.6 kB), 8 kB, 64 kB or the default (~208 kB); a chunk larger than the free space is
+        // taken by the kernel in pieces (short writes) and read back in pieces (short reads)
+        let kbuf: [Option<usize>; 2] = if self.kernel {
+            [*cx.ch.pick("cfg.sndbuf", &[None, Some(1usize), Some(8192), Some(65536)]), *cx.ch.pick("cfg.rcvbuf", &[None, Some(1usize), Some(8192), Some(65536)])]
+        } else {
+            [None, None]
+        };
+        let kernel = self.kernel;
         let task_stall = if self.faults { (cx.ch.draw("cfg.task_stall", 4), 8) } else { (0, 1) };
         let total_bytes: usize = eps.iter().flat_map(|e| e.send.iter()).map(|c| c.len()).sum();
         cx.st.add("probe.chunks_planned", total as u64);
         cx.st.add("probe.bytes_planned", total_bytes as u64);
 
-        run_sim(cx, |sh| async move {
-            let (wa, rb) = pipe("a2b", &sh, &pcfg);
-            let (wb, ra) = pipe("b2a", &sh, &pcfg);
-            let mut plex = [Plexer::new(bearer1(ra, wa)), Plexer::new(bearer1(rb, wb))];
+        if kernel {
+            let lim = kbuf[0].map(|x| x.max(4608)).unwrap_or(212_992);
+            let split = eps.iter().flat_map(|e| e.send.iter()).filter(|c| c.len() + 8 > lim).count();
+            cx.st.add("fault.kernel_short_write_forced", split as u64);
+            if kbuf[0] == Some(1) {
+                cx.st.inc("fault.kernel_min_sndbuf");
+            }
+            if kbuf[1] == Some(1) {
+                cx.st.inc("fault.kernel_min_rcvbuf");
+            }
+        }
+        run_sim_opts(cx, kernel, if kernel { 2 * WATCHDOG_S } else { WATCHDOG_S }, |sh| async move {
+            let mut plex = if kernel {
+                let (a, b) = unix_pair(kbuf[0], kbuf[1]);
+                [Plexer::new(pallas_network::multiplexer::Bearer::Unix(a)), Plexer::new(pallas_network::multiplexer::Bearer::Unix(b))]
+            } else {
+                let (wa, rb) = pipe("a2b", &sh, &pcfg);
+                let (wb, ra) = pipe("b2a", &sh, &pcfg);
+                [Plexer::new(bearer1(ra, wa)), Plexer::new(bearer1(rb, wb))]
+            };
             let mut chans = vec![];
             for e in &eps {
                 let c = if e.client { plex[e.side].subscribe_client(e.proto) } else { plex[e.side].subscribe_server(e.proto) };
@@ -247,8 +274,9 @@ pub fn def() -> CheckDef {
         prop: "C20",
         level: "exploration",
         batches: vec![
-            batch(Mux { name: "mux-fault-free", faults: false, max_chunks: 200 }, 1_500, 100_000, false),
-            batch(Mux { name: "mux-schedules", faults: true, max_chunks: 200 }, 3_000, 250_000, true),
+            batch(Mux { name: "mux-fault-free", faults: false, max_chunks: 200, kernel: false }, 1_500, 100_000, false),
+            batch(Mux { name: "mux-schedules", faults: true, max_chunks: 200, kernel: false }, 3_000, 250_000, true),
+            batch(Mux { name: "mux-kernel-unix-socketpair", faults: true, max_chunks: 200, kernel: true }, 1_500, 100_000, true),
         ],
         rule: "two real Plexers joined by two seeded in-memory pipes; 1..6 agents with seeded protocol ids (0, 0x7fff, ids differing only in bit 15), roles and directions, 0..200 uniquely stamped chunks each of sizes {0,1,2,small,65534,65535,uniform}; schedules = seeded stalls of every pipe poll and task poll, simulated-time delays, short reads, partial writes, pipe capacities down to 9 bytes (back-pressure); half the runs carry traffic for an unsubscribed protocol; oracle: every endpoint receives exactly its counterpart's chunks, in order, nothing else, and the run quiesces before the simulated-time watchdog; non-trivial = completed run with a non-neutral choice; distinct = distinct event traces",
         real: vec!["pallas_network::multiplexer::{Plexer, Muxer, Demuxer, AgentChannel, Header}", "tokio mpsc, time, current-thread scheduler (paused clock)"],
